@@ -183,6 +183,77 @@ def eval_part(ev, rsl, part, var):
     return S.num_norm(ev.call(f, [var, part_args(rsl, part)], {}))
 
 
+def impure_parts(ev, rsl, var):
+    """Parts of an RSL whose folded value changes when the same closure is evaluated again with the same arguments: the
+    kernel keeps state between evaluations (a captured container that it, or a helper it hands it to, mutates), so the
+    quadrature integrates something else at every call.  -> [(part, first, second)], or None if not foldable."""
+    out = []
+    for part in ("reg", "sing", "loc"):
+        f = rsl.attrs.get(part)
+        if f is None:
+            continue
+        if isinstance(f, S.FuncVal) and f.closure is None and f.bound is None:
+            continue  # a module-level (compiled) function: it captures nothing it could keep state in (its globals: C18.frozen)
+        try:
+            A.set_budget(300_000)  # the large intrinsic NLO expressions are left to the numerical guard of C03.rsl: undecided here
+            vals = [eval_part(ev, rsl, part, var) for _ in range(3)]
+        except (Undecided, S.Raised):
+            return None
+        finally:
+            A.set_budget(None)
+        for a, b in zip(vals, vals[1:]):
+            try:
+                same = A.canon(a) == A.canon(b) or A.equal(A.to_rat(a), A.to_rat(b), tol=Fraction(0))
+            except (Undecided, TypeError):
+                same = A.canon(a) == A.canon(b)
+            if not same:
+                out.append((part, a, b))
+                break
+    return out
+
+
+def _pure_job(fq):
+    from . import model
+
+    proj = model.project()
+    ev = S.Evaluator(proj, on_call=above_threshold_hook)
+    sym = Sym()
+    c = [c_ for c_ in channel_classes(proj) if c_.fq == fq][0]
+    try:
+        obj = instantiate(ev, c, sym)
+    except (Undecided, S.Raised):
+        return []
+    out = []
+    for k in range(4):
+        r = fold_order(ev, obj, k)
+        if r.status != "rsl":
+            continue
+        site = r.method.site if r.method is not None else c.site
+        res = impure_parts(ev, r.rsl, sym.z)
+        out.append((k, site, None if res is None else [(part, A.canon(a)[:80], A.canon(b)[:80]) for part, a, b in res]))
+    return out
+
+
+def check_pure(rep, proj, rule, family_filter=None, floor=0):
+    """Every order method of every partonic-channel class: the functions it returns are functions of their arguments."""
+    from . import sweep
+
+    classes = [c.fq for c in channel_classes(proj) if family_filter is None or family_filter(c)]
+    n = 0
+    for fq, rows in zip(classes, sweep.run_cells(_pure_job, classes)):
+        for k, site, res in rows:
+            construct = f"{fq}.{ORDER_METHODS[k]}"
+            if res is None:
+                rep.note(f"{rule}: {construct} not foldable within the budget (reported by C03.rsl / C18.args)")
+                continue
+            n += 1
+            rep.check(not res, rule, site, construct, "each part folds to the same function on repeated evaluation (no state kept between calls)",
+                      "; ".join(f"{part} part changes between two evaluations with the same arguments: {a} then {b}" for part, a, b in res)
+                      + " - the kernel mutates state it keeps between calls", key=f"pure|{ORDER_METHODS[k]}")
+    rep.floor(f"{rule}: order methods evaluated repeatedly", n, floor)
+    return n
+
+
 def eval_part_regimes(ev, rsl, part, var, max_paths=8):
     """Piecewise kernels: fold rsl.<part>(var, args) once per outcome of the comparisons it makes on the integration variable alone
     (`if 1 - z < 1e-5: ...`).  -> list of (conditions, value) with conditions = [(difference lhs - rhs, comparator name, outcome)].
